@@ -169,7 +169,14 @@ class dtype:
     @property
     def kind(self):
         if self.symbolic:
-            raise Undecided("kind of symbolic dtype")
+            # a one-character str cannot be symbolic (`kind in "if"` is str.__contains__): fork over the four kinds
+            if _py_bool(SV.lift(self.code) == CODE["bool"]):
+                return "b"
+            if _py_bool(SV.lift(self.code) >= CODE["float16"]):
+                return "f"
+            if _py_bool(SV.lift(self.code) >= CODE["uint8"]):
+                return "u"
+            return "i"
         c = self.code
         return "b" if c == "bool" else "i" if c.startswith("int") else "u" if c.startswith("uint") else "f"
 
